@@ -92,6 +92,11 @@ CHECKS = {
    technique="bounded exhaustive enumeration of lifecycle histories x restart points x {SIGKILL, SIGTERM} against the real `xs serve` child process, reference model of the active set",
    text="Histories of register / unregister / replace / closure error, spawn / failing spawn, define / invalid define / call over 2 names x 2 contexts with the same name used in both contexts (quick: a fixed family of 16 histories x last two restart points x both signals; thorough: + every history of depth <= 3 over a 12-event alphabet x every restart point). After the restart, sentinels prove every serve loop is live; the handlers announced and the generators started must be exactly the active ones with their old ids, each answers a probe, commands are served by the latest definition of their own context, nothing that was stopped answers, no historical trigger or call is executed again.",
    note="The child is the real `xs serve` binary built from /repo's working tree; its internal schedule is the OS's. Restart points are quiescent boundaries of the history (crash points inside an operation are C04's). Absence is decided after the expected answers plus an 80 ms grace period."),
+
+ "C14": dict(engine="E5-lifecycle", cat="model_checking", ref="DESIGN.md §5 C14, §10 (fallback)",
+   technique="bounded exhaustive enumeration of handler histories (resume mode x pre-history x co-resident handler x burst composition) on the real handler machinery; complete invocation sequence reconstructed from the handler's own outputs and compared with the stream",
+   text="Resume mode tail / head / after-id x pre-history with or without an earlier instance of the same name (its register/unregister traffic and output) x a second handler in the same context x bursts of 0/1/3 frames from two writers into the handler's context and into another context while it is busy. The handler answers every frame with a per-instance counter; the sequence of meta.frame_id on its outputs must equal the context's stream after the resume point minus its own outputs and stale registration traffic - once each, strictly increasing, nothing of another context, one threshold for non-tail modes - and the counter must run 1,2,3,... (one at a time, env carried over).",
+   note="DESIGN.md §10 fallback applies: histories and burst compositions are enumerated, the interleaving of a burst with the busy handler is the OS's; the schedule dimension of the stream the handler consumes is decided exhaustively by C03 and the start-up race by C16."),
 }
 NOT_YET = {}
 ALL = ["C%02d" % i for i in range(1, 21)]
@@ -130,7 +135,7 @@ def main():
             "add_only": True,
         },
         "engines": [
-            {"name": "E5-lifecycle", "path": "engine/src/e5.rs, engine/src/c15.rs, engine/src/c16.rs", "serves_properties": ["C15", "C16", "C17", "C18", "C19"],
+            {"name": "E5-lifecycle", "path": "engine/src/e5.rs, engine/src/c15.rs, engine/src/c16.rs", "serves_properties": ["C14", "C15", "C16", "C17", "C18", "C19"],
              "kind_free_text": "real handlers/generators/commands serve loops on a real store, driven through the Store API, sentinel-based quiescence"},
             {"name": "E3-crash", "path": "crash/crashenum.py, engine/src/crash.rs", "serves_properties": ["C04"],
              "kind_free_text": "strace-based crash-image enumerator (python) + traced driver and recovery checker (Rust)"},
